@@ -49,7 +49,7 @@ def run(tier, seed):
                 it["n"] = 0
                 return k + 1
         return 0
-    seeds = [seed * 1000 + i for i in range(1 if quick else 4)]
+    seeds = [seed * 1000 + i for i in range(1 if quick else 8)]
     vlib.trace_rounds(c, "Trace_XmlLimit", "rrdp", seeds, 40 if quick else 400, mut, xmx="6g",
                       extra_args=["--full-size", 0 if quick else 1], timeout=3000)
     c.cov["rule"] = ("cases = every state of RrdpDoc (document shapes, delta lists x limits, authority triples); non-trivial = at least one element; "
